@@ -628,22 +628,26 @@ int main(int argc, char** argv) {
     AddSuffix(TargName, STRINGSIZE, BinSuffix);
 
     MaxGran = 1;
-    if ((StartAuto) || (StopAuto)) {
-        if (StartAuto) {
-            StartAdr = 0xfffffffful;
-        }
-        if (StopAuto) {
-            StopAdr = 0;
-        }
-        if (ProcessedEmpty(ParUnprocessed)) {
-            ProcessGroup(SrcName, MeasureFile);
-        } else {
-            for (z = 1; z < argc; z++) {
-                if (ParUnprocessed[z]) {
-                    ProcessGroup(argv[z], MeasureFile);
-                }
+    if (StartAuto) {
+        StartAdr = 0xfffffffful;
+    }
+    if (StopAuto) {
+        StopAdr = 0;
+    }
+
+    /* always measure: the largest granularity scales the image size, also
+       for an explicitly given address range */
+
+    if (ProcessedEmpty(ParUnprocessed)) {
+        ProcessGroup(SrcName, MeasureFile);
+    } else {
+        for (z = 1; z < argc; z++) {
+            if (ParUnprocessed[z]) {
+                ProcessGroup(argv[z], MeasureFile);
             }
         }
+    }
+    if ((StartAuto) || (StopAuto)) {
         if (StartAdr > StopAdr) {
             errno = 0;
             fprintf(stderr, "%s\n", getmessage(Num_ErrMsgAutoFailed));
